@@ -34,6 +34,7 @@ pub enum K {
     Exchange, // macro: r melds from x and refreshes
     EditCommit, // macro: update then commit
     Diverge, // macro: two replicas edit and commit concurrently, then one learns the other's work
+    Trickle, // macro: every item a replica lacks is delivered one file at a time, refresh after each
     N,
 }
 
@@ -90,6 +91,7 @@ pub fn profile_for(prop: &str, variant: u64) -> Profile {
     match prop {
         "C01" => {
             p.name = "convergence";
+            w[K::Trickle as usize] = 6;
             w[K::Partition as usize] = 2;
             w[K::Heal as usize] = 2;
             w[K::ReloadUntil as usize] = 2;
@@ -98,7 +100,11 @@ pub fn profile_for(prop: &str, variant: u64) -> Profile {
         }
         "C02" => {
             p.name = "causal-delivery";
-            w[K::Send as usize] = 30;
+            p.replicas = (2, 4);
+            w[K::Trickle as usize] = 30;
+            w[K::Diverge as usize] = 16;
+            w[K::EditCommit as usize] = 24;
+            w[K::Send as usize] = 10;
             w[K::Tick as usize] = 8;
             w[K::Refresh as usize] = 20;
             w[K::Meld as usize] = 2;
@@ -481,6 +487,39 @@ impl Gen {
                     if self.rng.chance(1, 2) {
                         v.push(Op::Meld { r: other, from: r });
                         v.push(Op::Refresh { r: other });
+                    }
+                    v
+                }
+            }
+            x if x == K::Trickle as usize => {
+                // deliver what `r` lacks from `other`, one file at a time, in a biased order
+                let src = w.replicas[other].disk.keys();
+                let have = w.replicas[r].disk.keys();
+                let mut lacked: Vec<String> = src.difference(&have).cloned().collect(); // name-sorted, as Send sees it
+                if lacked.is_empty() {
+                    vec![Op::Refresh { r }]
+                } else {
+                    let idx_of = |k: &String| -> u64 { if k.ends_with(".delta") { k.split('-').next().and_then(|i| i.parse().ok()).unwrap_or(0) } else { 0 } };
+                    let mut order: Vec<String> = lacked.clone();
+                    match self.rng.below(6) {
+                        0 => order.sort_by_key(|k| (k.ends_with(".pack"), std::cmp::Reverse(idx_of(k)))), // children first, packs last
+                        1 => order.sort_by_key(|k| (k.ends_with(".pack"), idx_of(k))),                      // blocks in order, packs last
+                        2 => order.sort_by_key(|k| (!k.ends_with(".pack"), std::cmp::Reverse(idx_of(k)))), // packs first, children first
+                        3 => order.sort_by_key(|k| (!k.ends_with(".pack"), idx_of(k))),                     // causal order
+                        _ => self.rng.shuffle(&mut order),
+                    }
+                    let mut v = vec![];
+                    if self.staging(w, r) {
+                        v.push(if self.rng.chance(1, 2) { Op::Commit { r, info: None } } else { Op::Unstage { r } });
+                    }
+                    let limit = self.rng.range(1, order.len().min(12));
+                    for k in order.into_iter().take(limit) {
+                        let pos = lacked.iter().position(|x| *x == k).unwrap();
+                        lacked.remove(pos);
+                        v.push(Op::Send { from: other, to: r, sel: pos as u32, delay: 0, dup: self.rng.chance(1, 12), drop: false });
+                        if self.rng.chance(5, 6) {
+                            v.push(Op::Refresh { r });
+                        }
                     }
                     v
                 }
